@@ -1,8 +1,6 @@
 package ast
 
 import (
-	"gopkg.in/yaml.v3"
-
 	zz "github.com/go-task/task/v3/internal/zzsym"
 )
 
@@ -124,14 +122,3 @@ func ZZ_C08_Merge() {
 	zz.Assert(t.Deps[0].Task == origDep, "definition-unchanged")
 }
 
-func ZZ_C16_Var() {
-	n := &yaml.Node{Kind: yaml.Kind(zz.Int("kind", 0, 16)), Value: zz.Str("value", 2, "ab")}
-	k := zz.Int("ncontent", 0, 2)
-	for i := 0; i < k; i++ {
-		n.Content = append(n.Content, &yaml.Node{Kind: yaml.ScalarNode, Value: zz.Str("cv", 3, "shrefmap")})
-	}
-	zz.Assume(n.Kind != yaml.MappingNode || len(n.Content)%2 == 0)
-	var v Var
-	_ = v.UnmarshalYAML(n)
-	zz.Reach("returned")
-}
